@@ -152,12 +152,22 @@ def reject_reaches(ctx: Ctx, chk) -> None:
 
     errs = ("aiomysensors.exceptions.MissingNodeError", "aiomysensors.exceptions.MissingChildError")
     funcs = [f for f in tables.all_handler_defs(ctx, include_wrappers=True)]
+    # ... and every definition on the dispatch chains (decorator wrappers however they are applied)
+    cells = tables.handler_cells(ctx)
+    for V in ctx.versions:
+        for cal in cells[V].values():
+            if cal is None:
+                continue
+            for f in tables.chain_defs(ctx, cal, V):
+                if f not in funcs:
+                    funcs.append(f)
     funcs.append(ctx.func("aiomysensors.gateway.Gateway.listen"))
     n = 0
     for f in funcs:
         fi = ctx.inl(f, lambda h: not h.name.startswith("handle_"))
+        pm = {c_: p_ for p_ in ast.walk(fi.node) for c_ in ast.iter_child_nodes(p_)}
         for h in [x for x in ctx.own_nodes(fi) if isinstance(x, ast.ExceptHandler)]:
-            tr = ctx.prog.parents.get(h)
+            tr = pm.get(h)
             if not isinstance(tr, ast.Try) or not any(isinstance(x, ast.Await) for b in tr.body for x in ast.walk(b)):
                 continue
             if not any(_catches(ctx, fi, h, e) for e in errs):
@@ -177,7 +187,9 @@ def reject_reaches(ctx: Ctx, chk) -> None:
             n += 1
             chk.instance(rule)
             chk.refute(rule, f"{f.fq}::with::{norm(w.items[0].context_expr)[:50]}", f"the `with` statement in {f.qualname} can swallow the error for an unknown node / child ({why}): the message is yielded as if it had been handled and nobody learns that it referred to something that is not in the registry", ctx.loc(fi, w))
-    chk.floor(rule, "handlers that can see the rejection", n, 1)
+    chk.instance(rule)
+    chk.ok(rule, "aiomysensors::scanned", f"{len(funcs)} handler / wrapper definitions and Gateway.listen scanned, {n} clause(s) / with statement(s) can see the rejection", "src/aiomysensors/model/protocol", sample=False)
+    chk.floor(rule, "handler and wrapper definitions scanned", len(funcs), 25)
 
 
 def reject_set(ctx: Ctx, chk) -> None:
